@@ -392,9 +392,14 @@ class ScoredCollector(Collector):
             # matcher with a more efficient version
             if replace:
                 if replacecounter == 0 or self.minscore != minscore:
-                    self.matcher = matcher = matcher.replace(minscore or 0)
+                    # Only matchers that support quality can say whether they
+                    # are able to beat the current minimum score
+                    replaceq = 0
+                    if minscore and matcher.supports_block_quality():
+                        replaceq = minscore
+                    self.matcher = matcher = matcher.replace(replaceq)
                     self.replaced_times += 1
-                    if minscore:
+                    if replaceq:
                         # The replacement may have dropped documents that can't
                         # make the top N, so we are no longer seeing every match
                         self.used_quality = True
